@@ -34,6 +34,7 @@ pub struct Profile {
     pub w_encaps: u64,
     pub w_recaps: u64,
     pub w_header: u64,
+    pub w_swap: u64,
     pub w_roundtrip: u64,
     pub w_mpk: u64,
     pub w_save: u64,
@@ -65,6 +66,7 @@ pub fn profile(name: &str) -> Profile {
         w_encaps: 8,
         w_recaps: 3,
         w_header: 2,
+        w_swap: 1,
         w_roundtrip: 3,
         w_mpk: 1,
         w_save: 0,
@@ -89,6 +91,7 @@ pub fn profile(name: &str) -> Profile {
             w_clone: 0,
             w_recaps: 0,
             w_header: 1,
+            w_swap: 0,
             w_roundtrip: 0,
             w_mpk: 0,
             w_invalid: 0,
@@ -452,6 +455,7 @@ impl Driver {
             ("encaps", p.w_encaps),
             ("recaps", p.w_recaps),
             ("header", p.w_header),
+            ("swap_attr", p.w_swap),
             ("roundtrip", p.w_roundtrip),
             ("mpk", p.w_mpk),
             ("save_msk", p.w_save),
@@ -597,6 +601,21 @@ impl Driver {
                     // the policy is drawn over the current structure; older
                     // public keys may not know it, which is part of the test
                     json!({"op": "encaps", "e": format!("e{}", self.n_enc), "mpk": k, "pol": self.rand_policy(&mut rng, p, true)})
+                }
+                "swap_attr" => {
+                    // replace the most recently created attribute by a new one with the opposite hint,
+                    // without an update in between (the new attribute takes over what the old one left)
+                    let newest = st
+                        .iter()
+                        .flat_map(|x| x.2.iter().map(move |a| (x.0.clone(), a.0.clone(), a.1, a.2)))
+                        .max_by_key(|x| x.2);
+                    match newest {
+                        Some((d, n, _, h)) => {
+                            self.step(&json!({"op": "del_attr", "d": d, "n": n}));
+                            json!({"op": "add_attr", "d": d, "n": self.fresh_name(), "hint": !h})
+                        }
+                        None => continue,
+                    }
                 }
                 "header" => {
                     let k = if rng.chance(2, 3) { nmpk } else { 1 + rng.below(nmpk) };
